@@ -124,7 +124,19 @@ theorem stmt_main_sem : ∀ f : Nat,
         rw [T2_chain (exprT2_of_C02 env) st l1 l2 op2 e hcarve] at hcomp
         obtain ⟨σIL', hx, hinv'⟩ := chain_correct hE henv hc hcomp hwf (WFHyp_of_static hwfe) hinv hex
         exact ⟨eff, hcomp, σIL', hx, hx, hinv'⟩
-      | exprstmt e => simp [WFStmt] at hwf
+      | exprstmt e =>
+        -- a bare pure value: both lowerings compile it (they fail together, `stmt_state_sem`) and emit nothing;
+        -- C evaluates and discards it
+        obtain ⟨⟨ef, stf⟩, hFs, hst⟩ := (stmt_state_sem hms hc hinv.inv env _ st hcarve hwf hwfe).ok_left hcomp
+        simp only [TStRel] at hst; subst hst
+        have h1 := compileStmt_bare (s := .exprstmt e) rfl hcomp
+        have h2 := compileStmt_bare (s := .exprstmt e) rfl hFs
+        subst h1; subst h2
+        simp only [execC] at hex
+        obtain ⟨v, _, hex1⟩ := bind_ok hex
+        simp only [Except.ok.injEq] at hex1
+        subst hex1
+        exact ⟨_, hFs, _, ExecIL_empty, ExecIL_empty, hinv⟩
       | ret e => simp [WFStmt] at hwf
       | vcall n x a p => simp [WFStmt] at hwf
       | ite cnd t e =>
@@ -290,9 +302,19 @@ theorem stmt_main_sem : ∀ f : Nat,
         simp only [exprsOfList, List.all_append, Bool.and_eq_true] at hwfe
         obtain ⟨ef, hef, σIL1, hx1, hx1F, hinv1⟩ := ihE s st e st1 σC σIL σ1 he hcarve.1 hwf.1 hwfe.1 hinv h1
         obtain ⟨esf, hesf, σIL2, hx2, hx2F, hinv2⟩ := ihS ss st1 es st2 σ1 σIL1 σC' hes hcarve.2 hwf.2 hwfe.2 hinv1 h2
-        refine ⟨ef :: esf, ?_, σIL2, ExecSeqIL_cons hx1 hx2, ExecSeqIL_cons hx1F hx2F, hinv2⟩
-        rw [compileStmts, hef]
-        simp only [bind, Except.bind, hesf]
+        refine ⟨consEff s ef esf, ?_, ?_⟩
+        · rw [compileStmts, hef]
+          simp only [bind, Except.bind, hesf]
+        · cases hb : isBare s
+          · rw [consEff_eff hb, consEff_eff hb]
+            exact ⟨σIL2, ExecSeqIL_cons hx1 hx2, ExecSeqIL_cons hx1F hx2F, hinv2⟩
+          · -- a bare value statement is listed by neither lowering; its (empty) effect does not move the IL state
+            rw [consEff_bare hb, consEff_bare hb]
+            have h0 := compileStmt_bare hb he
+            subst h0
+            have := ExecIL_det hx1 ExecIL_empty
+            subst this
+            exact ⟨σIL2, hx2, hx2F, hinv2⟩
     · intro v cond body st bs bsf st' cc fc stepE loopBody loopBodyF σC σIL σC' hcc hF hcx hcok hbs hbsf hcb hshape hshapeF
         hwfb hwfe hinv hex
       rw [loopC] at hex
